@@ -30,7 +30,9 @@ NEEDS = {"merge-step": ["update"], "merge-function": ["update", "apply"], "read-
 
 TRUSTED = (
     "translator tools/translate_config.py (fail-closed ast whitelist: `k [not] in D[.keys()]`, isinstance(D[k], dict), "
-    "not/and/or with short-circuit, stores out[k] = D[k] | update_config(D[k], D[k]), key set = set(list of keys) / "
+    "not/and/or with short-circuit, a loop body of stores out[k] = VALUE / re-assignable locals / if-elif-else / continue "
+    "executed symbolically per key (VALUE = D[k] | local | update_config(..); every D[k] guarded where Python evaluates "
+    "it; a recursive call whose result is not what is stored is refused), key set = set(list of keys) / "
     "unions of keys views) and its reading of the loop (ConfigTieBase.merge_skel: both arguments dicts, set enumerated "
     "in an arbitrary order, one store per key, an exception aborts the call); only pattern-checked (glue): import "
     "lines, `with open(..) as fp`, yaml.load(fp, Loader=yaml.FullLoader) / json.load(fp) read as the parsed tree, "
